@@ -31,12 +31,16 @@ CONSTRAINT = {"function": ".function", "number": ".number", "real": ".real", "na
               "square_matrix": ".squareMatrix"}
 KW_TAG = {23: ".delete", 20: ".cross", 25: ".as_", 19: ".dot", 24: ".clear"}
 
+DRY = False   # with DRY set, report what would change and write nothing
+
 def write_if_changed(path, text):
     try:
         if open(path).read() == text:
             return False
     except FileNotFoundError:
         pass
+    if DRY:
+        return True
     os.makedirs(os.path.dirname(path), exist_ok=True)
     with open(path, "w") as f:
         f.write(text)
